@@ -7,7 +7,9 @@ SCHEMA_KW = ["ForeignKeyAction"]
 
 
 QUERY_PRODUCTIONS = [("prepare_select_statement", "select"), ("prepare_insert_statement", "insert"), ("prepare_update_statement", "update"),
-                     ("prepare_delete_statement", "delete"), ("prepare_with_query", "with_query"), ("prepare_table_ref", "table_ref")]
+                     ("prepare_delete_statement", "delete"), ("prepare_with_query", "with_query"), ("prepare_table_ref", "table_ref"),
+                     ("prepare_function_arguments", "arguments"), ("prepare_case_statement", "case_expr"), ("prepare_column_ref", "column_ref"),
+                     ("prepare_tuple", "tuple"), ("prepare_simple_expr_common", "expr_forms"), ("prepare_simple_expr", "expr_hook")]
 
 
 SCHEMA_PRODUCTIONS = [(stmt.TB, "prepare_table_create_statement", "table_create"), (stmt.TB, "prepare_table_alter_statement", "table_alter"),
@@ -43,6 +45,7 @@ def run_structure(run, pid, kind, dialects, cfgs):
                 total = 0
                 for method, production in QUERY_PRODUCTIONS:
                     total += grammar.check_production(run, pid + ".R1", f, cfg, d, stmt.QB, method, production)
+                total += grammar.check_production(run, pid + ".R1", f, cfg, d, "crate::backend::table_ref_builder::TableRefBuilder", "prepare_table_ref_iden", "table_name")
                 run.floor(pid + ".R1", "%s:grammar-nfa-states" % d, total, 400, cfg)
         if kind == "schema":
             for d in present:
